@@ -14,6 +14,7 @@ for id in $ids; do
   PYTHONPATH=$wt/src /venv/bin/python $d/demo.py >/dev/null 2>&1; rc_clean=$?
   if ! git -C $wt apply $d/patch.diff 2>/dev/null; then echo "$id PATCH-DOES-NOT-APPLY"; continue; fi
   PYTHONPATH=$wt/src /venv/bin/python $d/demo.py >/dev/null 2>&1; rc_patched=$?
+  if [ "$rc_patched" -eq 0 ]; then echo "$id demo_clean=$rc_clean demo_patched=0 OBSOLETE (the patch no longer breaks its demo on this tree)"; continue; fi
   out=$(PDT_VERIF_REPO_SRC=$wt/src ./check $prop --tier quick 2>&1 | grep -v WARNING)
   nv=$(echo "$out" | grep -c "^VIOLATION")
   first=$(echo "$out" | grep -m1 "oracle=" | cut -c1-150)
